@@ -1,0 +1,202 @@
+//go:build verif
+// +build verif
+
+package drummer
+
+// Hooks for the verification harness in /verif. Compiled only with -tags verif.
+
+import (
+	"context"
+	"encoding/json"
+	"fmt"
+
+	"github.com/lni/dragonboat/v4"
+	pb "github.com/lni/drummer/v3/drummerpb"
+)
+
+// VerifRand is a scripted random.Source.
+type VerifRand struct {
+	Draws     []uint64
+	Pos       int
+	Exhausted bool
+}
+
+func (r *VerifRand) next() uint64 {
+	if r.Pos >= len(r.Draws) {
+		r.Exhausted = true
+		panic("verif: random draws exhausted")
+	}
+	v := r.Draws[r.Pos]
+	r.Pos++
+	return v
+}
+
+// Uint64 implements random.Source.
+func (r *VerifRand) Uint64() uint64 { return r.next() }
+
+// Int implements random.Source.
+func (r *VerifRand) Int() int { return int(r.next() & 0x7fffffffffffffff) }
+
+// VerifRepair is the classification of one shard as seen by the scheduler.
+type VerifRepair struct {
+	ShardID uint64
+	Failed  []uint64
+	OK      []uint64
+	ToStart []uint64
+}
+
+// VerifSchedResult is what one scheduling call produced.
+type VerifSchedResult struct {
+	Requests    []*pb.NodeHostRequest
+	Err         string
+	Panic       string
+	DrawsUsed   int
+	ShardsOrder []uint64
+	HostsOrder  []string
+	Repairs     []VerifRepair
+	KillList    int
+}
+
+func verifIDs(l []replica) []uint64 {
+	r := make([]uint64, 0, len(l))
+	for _, n := range l {
+		r = append(r, n.ReplicaID)
+	}
+	return r
+}
+
+// VerifSchedule decodes a SCHEDULER_CONTEXT lookup result exactly as the leader
+// loop does, loads it into a scheduler with a scripted random source and runs
+// either launch() or maintainShards().
+func VerifSchedule(nh *dragonboat.NodeHost, ctxJSON []byte, draws []uint64,
+	mode string) (res VerifSchedResult) {
+	sc := &schedulerContext{}
+	if err := json.Unmarshal(ctxJSON, &sc); err != nil {
+		panic(err)
+	}
+	rnd := &VerifRand{Draws: draws}
+	s := &scheduler{randomSrc: rnd, config: pb.Config{}}
+	s.updateSchedulerContext(sc)
+	for _, c := range s.shards {
+		res.ShardsOrder = append(res.ShardsOrder, c.ShardId)
+	}
+	for _, h := range s.nodeHostList {
+		res.HostsOrder = append(res.HostsOrder, h.Address)
+	}
+	for _, cr := range s.shardsToRepair {
+		res.Repairs = append(res.Repairs, VerifRepair{ShardID: cr.shardID,
+			Failed: verifIDs(cr.failedReplicas), OK: verifIDs(cr.okReplicas),
+			ToStart: verifIDs(cr.replicasToStart)})
+	}
+	res.KillList = len(s.replicasToKill)
+	defer func() {
+		res.DrawsUsed = rnd.Pos
+		if r := recover(); r != nil {
+			res.Requests = nil
+			res.Panic = fmt.Sprint(r)
+		}
+	}()
+	var reqs []*pb.NodeHostRequest
+	var err error
+	if mode == "launch" {
+		reqs, err = s.launch()
+	} else {
+		d := &Drummer{nh: nh, scheduler: s}
+		reqs, err = d.maintainShards()
+	}
+	if err != nil {
+		res.Err = err.Error()
+		return res
+	}
+	res.Requests = reqs
+	return res
+}
+
+// VerifToShardState exposes toShardState on a decoded scheduler context.
+func VerifToShardState(ctxJSON []byte, shardID uint64) (*pb.ShardState, error) {
+	sc := &schedulerContext{}
+	if err := json.Unmarshal(ctxJSON, &sc); err != nil {
+		panic(err)
+	}
+	return toShardState(sc.ShardImage, sc.NodeHostImage, sc.Tick, shardID)
+}
+
+// ---- election ----
+
+// VerifElection drives one electionManager turn by turn, without its ticker.
+type VerifElection struct {
+	em   *electionManager
+	tick uint64
+}
+
+// VerifNewElection builds an election manager with a chosen instance id.
+func VerifNewElection(nh *dragonboat.NodeHost, instanceID uint64) *VerifElection {
+	rnd := &VerifRand{}
+	srv := newDrummerServer(nh, rnd)
+	em := &electionManager{
+		state:         stateFollower,
+		drummerServer: srv,
+		randSrc:       rnd,
+		instanceID:    instanceID,
+	}
+	em.sessionUser = &sessionUser{nh: nh}
+	return &VerifElection{em: em}
+}
+
+// Turn runs one election turn; with cancelled set every DB operation fails.
+func (v *VerifElection) Turn(cancelled bool) {
+	v.tick++
+	ctx, cancel := context.WithCancel(context.Background())
+	if cancelled {
+		cancel()
+	}
+	defer cancel()
+	if v.em.isLeader() {
+		v.em.leaderMain(ctx, v.tick)
+	} else {
+		v.em.followerMain(ctx, v.tick)
+	}
+}
+
+// Skip advances the local turn counter without taking a turn (a paused server
+// whose ticker keeps counting is modelled by the harness not calling Skip).
+func (v *VerifElection) View() (leader bool, hasCur bool, inst, tick, static uint64) {
+	leader = v.em.isLeader()
+	if v.em.currentLeader != nil {
+		return leader, true, v.em.currentLeader.instanceID, v.em.currentLeader.tick, v.em.currentLeader.staticRound
+	}
+	return leader, false, 0, 0, 0
+}
+
+// VerifElectionRecord reads the election record.
+func VerifElectionRecord(nh *dragonboat.NodeHost) (uint64, uint64, error) {
+	srv := newDrummerServer(nh, &VerifRand{})
+	kv, err := srv.getElectionInfo(context.Background())
+	if err != nil {
+		return 0, 0, err
+	}
+	return kv.InstanceId, kv.Tick, nil
+}
+
+// VerifNewServer returns the Drummer service implementation backed by nh.
+func VerifNewServer(nh *dragonboat.NodeHost) pb.DrummerServer {
+	return newDrummerServer(nh, &VerifRand{})
+}
+
+// VerifConsts returns the package constants the formal model is parameterised
+// by, as the compiler evaluated them.
+func VerifConsts() map[string]uint64 {
+	return map[string]uint64{
+		"tickIntervalSecond": tickIntervalSecond,
+		"nodeHostTTL":        nodeHostTTL,
+		"launchDeadlineTick": launchDeadlineTick,
+		"loopIntervalSecond": loopIntervalSecond,
+		"deadLeaderMinRound": deadLeaderMinRound,
+		"DBUpdated":          DBUpdated,
+		"ShardExists":        ShardExists,
+		"DBBootstrapped":     DBBootstrapped,
+		"DBKVUpdated":        DBKVUpdated,
+		"DBKVFinalized":      DBKVFinalized,
+		"DBKVRejected":       DBKVRejected,
+	}
+}
